@@ -476,8 +476,12 @@ def echoes(ctx, out, tok, data):
     if tok is None:
         return out[0] == data
     s = ctx.call([3, LP, out[0]])
-    if s[0] == 12:      # [data] is not a network packet (empty / no Type number): only the exact bytes can be compared
-        return out[0] == bytes(ctx.call([9, [tok], data]))
+    if s[0] == 12:      # [data] is not a network packet (empty / no Type number): read the elements directly
+        els = top_elements(out[0]) or []
+        first = {}
+        for t, v in els:
+            first.setdefault(t, v)
+        return first.get(T_TOKEN) == tok and first.get(T_FRAG) == data and not {T_FIDX, T_FCNT, T_NACK} & set(first)
     return s[0] == 3 and s[2] and bytes(s[2][0]) == tok and bytes(s[3]) == data
 
 
@@ -837,3 +841,23 @@ def run(ctx):
         for rep in range(ctx.n(2, 6)):
             perms = allp if (ctx.thorough or k <= 3) else rng.sample(allp, 8)
             run_tokens(ctx, order, toks(k), perms, 'perm', late=(5.0 if rep == 0 else None))
+
+
+def replay(ctx, data):
+    """single-case replay of a prologue / codec case (typ, wire); anything else: the seeded run is repeated"""
+    import logging
+    logging.disable(logging.CRITICAL)
+    from harness.lib.core import unjson
+    case = unjson(data.get('case', {}))
+    if isinstance(case, dict) and 'wire' in case and ('typ' in case or 'function' in case):
+        env = Env()
+        try:
+            typ = case.get('typ', LP)
+            for ver in (2, 1):
+                check_prologue(ctx, Prologue(env, ver), typ, case['wire'], 'replay', True, ORDER)
+            if typ == LP:
+                check_codecs(ctx, case['wire'])
+        finally:
+            env.close()
+    else:
+        run(ctx)
